@@ -266,3 +266,36 @@ def call_outcomes(f, path, decs, callee):
     if pending is not None:
         out.append((pending, None))
     return out
+
+
+def capture_trees(P, g):
+    """trees (in the parent's body) of the values captured by closure g, by capture position"""
+    par = P.fns.get(g.parent) if g.parent else None
+    if par is None:
+        return None, []
+    for (b, i, ck) in par.closures_created():
+        if ck == g.key:
+            st = par.stmts(b)[i]
+            return par, [par.expr_operand(o, b, i) for o in st['r']['ops']]
+    return par, []
+
+
+def resolve_captures(P, g, tree):
+    """replace `<closure env>.N` projections in a tree of closure g by the captured value's tree in the parent"""
+    if g.kind != 'closure':
+        return tree
+    par, caps = capture_trees(P, g)
+    if not caps:
+        return tree
+
+    def rec(t):
+        if not isinstance(t, tuple) or not t:
+            return t
+        if t[0] == 'field' and t[2].isdigit() and '{closure' in str(t[3]) and int(t[2]) < len(caps):
+            base = t[1]
+            while base[0] in ('deref', 'ref'):
+                base = base[1]
+            if base[0] == 'arg' and base[1] == 1:
+                return caps[int(t[2])]
+        return tuple(rec(x) if isinstance(x, tuple) else x for x in t)
+    return rec(tree)
